@@ -22,7 +22,7 @@ ASSUME = [
     "a subtree is serialized on its own only when it is whitespace-reduced standing alone (precondition of the property)",
 ]
 
-WIDTHS_QUICK = [0, 0, 0]
+WRAP_MODEL = False  # becomes True once the TextWrappingSerializer model is served by the driver
 
 
 def reduced_alone(t):
@@ -97,8 +97,13 @@ def run_cases(run: Run, cases, stream, lean_ok=True):
         if has_empty_text(before):
             continue
         rows.append((c, before, res))
-    reqs = [F.lean_request("pretty" if c["width"] == 0 else "wrapser", c, b) for c, b, _ in rows]
-    models = run_driver(reqs) if lean_ok and rows else [None] * len(rows)
+    idx = [i for i, (c, _, _) in enumerate(rows) if c["width"] == 0 or WRAP_MODEL]
+    reqs = [F.lean_request("pretty" if rows[i][0]["width"] == 0 else "wrapser", rows[i][0], rows[i][1]) for i in idx]
+    outs = run_driver(reqs) if lean_ok and reqs else []
+    models = [None] * len(rows)
+    if outs:
+        for i, m in zip(idx, outs):
+            models[i] = m
     for (c, before, res), m in zip(rows, models):
         judge(run, stream, c, before, res, m)
 
@@ -118,7 +123,7 @@ def corpus():
 
 def check(run: Run, lean: dict) -> int:
     n = 1500 if run.tier == "quick" else 40000
-    widths = WIDTHS if lean.get("wrap_model", False) else [0]
+    widths = WIDTHS
     run.extra["rule"] = (
         "generated mixed-content trees reduced by the independent oracle (nested inline elements, comments/PIs between text, "
         "xml:space preserve/default/invalid, long words, empty elements) x indentation {'',' ','  ','\\t'} x width x "
